@@ -242,6 +242,12 @@ static void run_C09(const Args &a, long cs) {
 		for (auto &x : p.co[d]) { x = lo + (hi - lo) * (x - a0) / (a1 - a0) * 0.999; }
 	}
 	fill_data(r, p, ykind, ykind == 1 ? &gen_coef : nullptr);
+	// units: the minimiser is linear in the data and unchanged when weights and smoothing strengths are multiplied by a common factor, so the same problem with
+	// data in units of 1e-24 ... 1e18 or with tiny / huge weights must be solved as well (the oracle's backward-error test is relative throughout)
+	if (ykind == 0 || ykind == 3) {
+		if (r.coin(0.3)) { static const double ys[] = {1e-24, 1e-18, 1e-12, 1e-6, 1e6, 1e12, 1e18}; double u = ys[r.below(7)]; for (auto &v : p.y) v *= u; char b[32]; snprintf(b, sizeof b, "%g", u); count(std::string("data-unit:") + b); p.kind += std::string("/data-unit:") + b; }
+		if (r.coin(0.25)) { static const double ws[] = {1e-18, 1e-12, 1e-6, 1e6, 1e12}; double u = ws[r.below(5)]; for (auto &v : p.w) v *= u; for (auto &l : p.lam) l *= u; char b[32]; snprintf(b, sizeof b, "%g", u); count(std::string("weight-unit:") + b); p.kind += std::string("/weight-unit:") + b; }
+	}
 	p.kind += ykind == 0 ? "/sin+noise" : ykind == 1 ? "/from-spline(lambda=0)" : ykind == 2 ? "/polynomial<penaltyOrder" : "/gaussian-noise";
 	Oracle o = build_oracle(p);
 	count("problems"); count("ndim:" + std::to_string(p.nd)); count("ykind:" + std::to_string(ykind)); for (int d = 0; d < p.nd; d++) { count("order:" + std::to_string(p.ord[d])); count("penaltyOrder:" + std::to_string(p.por[d])); if (p.lam[d] == 0) count("dims-with-zero-smoothing"); }
